@@ -470,15 +470,12 @@ class Environment:
             return obj[argument]
         except (AttributeError, TypeError, LookupError):
             if isinstance(argument, str):
+                attr = str(argument)
+
                 try:
-                    attr = str(argument)
-                except Exception:
+                    return getattr(obj, attr)
+                except AttributeError:
                     pass
-                else:
-                    try:
-                        return getattr(obj, attr)
-                    except AttributeError:
-                        pass
             return self.undefined(obj=obj, name=argument)
 
     def getattr(self, obj: t.Any, attribute: str) -> t.Any:
